@@ -171,10 +171,10 @@ def k1_parse_source(t: str, n1: int, n2: int) -> bool:
 
 def _k1_obligations(tier: str) -> List[Ob]:
     import itertools
-    len1, len2 = (4, 3) if tier == 'quick' else (5, 4)
+    len1, len2 = (3, 3) if tier == 'quick' else (5, 4)
     obs = []
     seqs = [((a,), len1) for a in K1_OPS] + [(ops, len2) for ops in itertools.product(K1_OPS, repeat=2)]
-    seqs += [(('copy',) + ops, len2) for ops in (('line', 'consume'), ('consume', 'line'))]
+    seqs += [(('copy',) + ops, len2) for ops in ((('consume', 'line'),) if tier == 'quick' else (('line', 'consume'), ('consume', 'line')))]
 
     def add(name, ops, maxlen, **extra):
         via_copy = ops[0] == 'copy'
@@ -319,13 +319,14 @@ def _k2_obligations(tier: str) -> List[Ob]:
 
     for total in range(0, maxlen + 1):
         for prefix in _k2_partition(total):
-            if tier == 'quick' and total == 4 and prefix == '[':
+            if tier == 'quick' and total == 4 and prefix in ('[', ' ', '\t'):
                 # the expensive part of length 4 (regex back-tracking over the name): quick tier takes the
                 # characters that matter inside a header; the thorough tier takes the full alphabet
                 add(total, prefix, K2_HEADER_ALPHABET)
             else:
                 add(total, prefix, K2_ALPHABET)
-    obs.append(Ob(name='K2:seeded-oracle-error', fn='k2_line_syntax', case=dict(prefix='[', n=3, oracle_bug=True),
+    obs.append(Ob(name='K2:seeded-oracle-error', fn='k2_line_syntax',
+                  case=dict(prefix='[', n=3, oracle_bug=True, alphabet=K2_HEADER_ALPHABET),
                   kernel='K2', bound='seeded oracle error: `[a ]` accepted', timeout=300, expect=ob.REFUTE, real=REAL_K2))
     return obs
 
@@ -524,6 +525,7 @@ def k3_document(t: str) -> bool:
 
 
 K3_HEADER_ALPHABET = ']ab\n'
+K3_QUICK_ALPHABET = '[]a\n#'
 _K3_NAMES = {'[': '[', ']': ']', 'a': 'a', 'b': 'b', ' ': 'space', '#': '#', '\n': 'newline'}
 
 
@@ -534,7 +536,7 @@ def _k3_obligations(tier: str) -> List[Ob]:
     def add(total, prefix, alphabet=K3_ALPHABET, timeout=900):
         reduced = alphabet != K3_ALPHABET
         obs.append(Ob(
-            name='K3:len%d:%r%s' % (total, prefix, ':header-alphabet' if reduced else ''), fn='k3_document',
+            name='K3:len%d:%r%s' % (total, prefix, ':reduced-alphabet' if reduced else ''), fn='k3_document',
             case=dict(prefix=prefix, n=total - len(prefix), alphabet=alphabet), kernel='K3',
             bound='every document text that consists of %r followed by exactly %d characters of {%s}; '
                   'sections a, b; default section a; every element (also comment and blank runs) and every error compared '
@@ -550,8 +552,8 @@ def _k3_obligations(tier: str) -> List[Ob]:
             add(total, '', timeout=890 if total == 2 else 900)
         elif total == 4:
             for ch in K3_ALPHABET:
-                if tier == 'quick' and ch == '[':
-                    add(total, ch, K3_HEADER_ALPHABET)
+                if tier == 'quick':
+                    add(total, ch, K3_HEADER_ALPHABET if ch == '[' else K3_QUICK_ALPHABET)
                 else:
                     add(total, ch)
         else:
@@ -732,7 +734,7 @@ def _k4_obligations(tier: str) -> List[Ob]:
     for i, chunk in enumerate(chunks):
         obs.append(_k4_case_ob('K4:A:2-lines:%d' % i, {R: [chunk, K4_ALL]}))
     if not thorough:
-        second = ('setup', 'act', 'unknown', 'comment', 'blank', 'i', 'm', 'eof', 'di', 'dclose', 'src', 'inc:missing')
+        second = ('setup', 'act', 'comment', 'blank', 'i', 'eof', 'dclose', 'src')
         for i, chunk in enumerate(chunks):
             obs.append(_k4_case_ob('K4:A:setup+2-lines:%d' % i, {R: ['setup', chunk, second]}))
     else:
@@ -753,7 +755,7 @@ def _k4_obligations(tier: str) -> List[Ob]:
                            oracle_bug='act-comment-dropped'))
 
     # ---- B: permutation of phase blocks
-    phases = _k4.HEADERS if thorough else ('setup', 'act', 'assert', 'cleanup')
+    phases = _k4.HEADERS if thorough else ('setup', 'act', 'assert')
     body = ('i', 'di', 'src')
     if thorough:
         blocks = [[phases, 'comment', body], [phases, 'm', 'src', 'eof'], [phases, 'i', 'blank']]
@@ -785,7 +787,7 @@ def _k4_obligations(tier: str) -> List[Ob]:
     # ---- C: inclusion
     if not thorough:
         rq = ('i', 'assert', 'inc:f1', 'comment')
-        fq = ('i', 'assert', 'act', 'src', 'unknown', 'inc:main', 'inc:f1', 'inc:missing')
+        fq = ('i', 'assert', 'act', 'unknown', 'inc:main', 'inc:missing')
         g = ('i', 'cleanup', 'act', 'malformed', 'inc:up-f1', 'inc:up-main', 'inc:f2-self', 'inc:missing')
         obs.append(_k4_case_ob('K4:C:one-level', {R: ['setup', 'inc:f1', rq], F1: [fq, fq]}))
         obs.append(_k4_case_ob('K4:C:two-levels', {R: ['setup', 'inc:f1', 'i'], F1: [('i', 'assert'), 'inc:f2', 'i'],
@@ -799,15 +801,16 @@ def _k4_obligations(tier: str) -> List[Ob]:
         g = ('i', 'cleanup', 'act', 'malformed', 'inc:up-f1', 'inc:up-main', 'inc:f2-self', 'inc:missing')
         for r0 in rt:
             obs.append(_k4_case_ob('K4:C:one-level:%s' % r0, {R: [r0, 'inc:f1', rt], F1: [f1, f1], F2: ['i']}))
+        g2 = ('i', 'src', 'cleanup', 'inc:up-f1')
+        # (split by one selector so that no obligation has more than ~400 file sets)
+        for x in ft:
+            obs.append(_k4_case_ob('K4:C:one-level:3-lines:%s' % x,
+                                   {R: ['setup', 'inc:f1', ('i', 'assert', 'inc:f1')], F1: [x, ft, ft]}))
+            obs.append(_k4_case_ob('K4:C:two-levels:%s' % x,
+                                   {R: [('setup', 'assert'), 'inc:f1', ('i', 'inc:f2')],
+                                    F1: [x, 'inc:f2', ('i', 'cleanup', 'inc:f2')], F2: [g, g2]}))
         for nl in (True, False):
             sfx = '' if nl else ':no-final-newline'
-            # (split by one selector so that no obligation has more than ~800 file sets)
-            for x in ft:
-                obs.append(_k4_case_ob('K4:C:one-level:3-lines:%s%s' % (x, sfx),
-                                       {R: ['setup', 'inc:f1', ('i', 'assert', 'inc:f1')], F1: [x, ft, ft]}, nl=nl))
-                obs.append(_k4_case_ob('K4:C:two-levels:%s%s' % (x, sfx),
-                                       {R: [('setup', 'assert'), 'inc:f1', ('i', 'inc:f2')],
-                                        F1: [x, 'inc:f2', ('i', 'cleanup', 'inc:f2')], F2: [g, g]}, nl=nl))
             for x in g:
                 obs.append(_k4_case_ob('K4:C:two-levels-up:%s%s' % (x, sfx),
                                        {R: [('setup', 'assert'), 'inc:f2', ('i', 'inc:f1')], F2: [x, 'inc:up-f1', g], F1: [ft]},
@@ -823,6 +826,7 @@ def _k4_obligations(tier: str) -> List[Ob]:
 
 K6_ALPHABET = '`i x\n#'
 K6_ALPHABET_FF = K6_ALPHABET + '\f'
+K6_ALPHABET_FF_QUICK = '`i \n\f'
 K6_HEAD = '[setup]\n'
 _K6_NAMES = {'`': 'back-tick', 'i': 'i', ' ': 'space', 'x': 'x', '\n': 'newline', '#': '#', '\f': 'form-feed'}
 
@@ -899,7 +903,7 @@ def _k6_obligations(tier: str) -> List[Ob]:
     obs = []
 
     def add(total, prefix, timeout=900, ff=False):
-        alphabet = K6_ALPHABET_FF if ff else K6_ALPHABET
+        alphabet = (K6_ALPHABET_FF_QUICK if tier == 'quick' else K6_ALPHABET_FF) if ff else K6_ALPHABET
         what = ('elements and errors as read by the reference reader (description, blank / comment lines before the '
                 'instruction, instruction name and argument, line numbers, texts)')
         if ff:
